@@ -470,3 +470,85 @@ Example line_format_queries_are_covered :
   LogqlTemplateProofs.planned_and_processed LogqlTemplateProofs.lf_query LogqlTemplateProofs.lf_ctx = true /\
   no_slf LogqlTemplateProofs.lf_query = true.
 Proof. split; [exact LogqlTemplateProofs.line_format_query_planned | reflexivity]. Qed.
+
+(* ---- round 8: from the REQUEST to the hint window of a Prometheus Select (model/ScansPromWindow.v =
+   PromQueryRangeController's snapping of start / end to 15 s, PromQueryInstantController, and
+   promql.Engine.getTimeRangesForSelector / subqueryTimes with this reader's engine options).  Until now the hint record of
+   the Prometheus theorems was a free variable and the window of every selector was computed by the harness in Go. ----
+   (a) for EVERY request (range: any start from 1970 on, any end; instant: any time), every selector of every query shape
+   (any subqueries around it, range or lookback, any offset) and every instant t the request asks that selector to see
+   - at most its reach before the requested start, shifted by the offsets, up to the requested end - t lies inside
+   [hints.Start, hints.End]: nothing inside the requested window is missed by the window handed to Select *)
+From Qryn Require Import model.ScansPromWindow proofs.ScansPromWindowProofs.
+Theorem prom_request_window_covered : forall r p t, req_ok r ->
+  req_from_ns r p <= t <= req_to_ns r p ->
+  fst (req_hint r p) * 1000000 <= t <= snd (req_hint r p) * 1000000.
+Proof. exact request_window_covered. Qed.
+Print Assumptions prom_request_window_covered.
+
+(* (b) "widened at most to the 15-second storage boundaries": the hint window is EXACTLY the requested window with its
+   start moved to the slot boundary at or below it and its end to the slot boundary at or above it (the oracle's own
+   fl_slot / cl_slot on the 15-second slots of metrics_15s), hence wider by less than one slot on either side; an
+   instant query is not widened at all *)
+Theorem prom_request_window_is_the_slot_hull : forall r p, req_ok r ->
+  fst (req_hint r p) * 1000000
+    = match r with PRange s _ => fl_slot slot15 s | PInstant t => unix_ms t * 1000000 end - (back_ms p + shift_ms p) * 1000000
+  /\ snd (req_hint r p) * 1000000
+    = match r with PRange _ e => cl_slot slot15 (unix_s e * 1000000000) | PInstant t => unix_ms t * 1000000 end - shift_ms p * 1000000.
+Proof. exact request_window_exact. Qed.
+Print Assumptions prom_request_window_is_the_slot_hull.
+Theorem prom_request_window_widened_by_less_than_a_slot : forall r p, req_ok r ->
+  req_from_ns r p - slot15 < fst (req_hint r p) * 1000000 <= req_from_ns r p
+  /\ req_to_ns r p <= snd (req_hint r p) * 1000000 < req_to_ns r p + slot15.
+Proof. exact request_window_widened_by_less_than_a_slot. Qed.
+Print Assumptions prom_request_window_widened_by_less_than_a_slot.
+
+(* (c) from every request to every read: the statement Select sends for the hint record the engine builds from the
+   request reads every row of the requested selector window and nothing further than one 15-second slot (+ the
+   millisecond the closed upper bound is written with) outside it - prom_every_scan_bounded with the hint record no
+   longer free *)
+Theorem prom_request_every_scan_bounded : forall re_full cluster db r p step func ms,
+  let h := req_hints r p step func in
+  Forall (scan_bounded table_info (prom_win h)) (scans (fst (querier_transpile re_full cluster db h ms)))
+  /\ (req_ok r ->
+      req_from_ns r p - slot15 < w_lo_min (prom_win h) /\ w_from (prom_win h) <= req_from_ns r p
+      /\ req_to_ns r p < w_to (prom_win h) /\ w_hi_max (prom_win h) < req_to_ns r p + slot15 + 1000000).
+Proof. exact request_select_scans_bounded. Qed.
+Print Assumptions prom_request_every_scan_bounded.
+
+(* (d) which requests can reach the roll-up table at all: only those whose selector reach (range or lookback + ranges and
+   offsets of the subqueries around it + its own offset) is a whole number of 15-second slots *)
+Theorem prom_request_rollup_needs_slot_aligned_reach : forall s e p step func, 0 <= s ->
+  use_raw_data (req_hints (PRange s e) p step func) = false -> (back_ms p + shift_ms p) mod 15000 = 0.
+Proof. exact request_rollup_needs_slot_aligned_reach. Qed.
+Print Assumptions prom_request_rollup_needs_slot_aligned_reach.
+
+(* (e) why req_ok and the whole-second end are in the statements: a start before 1970 is snapped UP (Go's division
+   truncates toward zero) and loses the first second; a sub-second part of the end (RFC 3339 parameters only) is dropped
+   before the ceiling *)
+Theorem prom_range_start_before_1970_refuted :
+  ~ (forall r p t, req_from_ns r p <= t <= req_to_ns r p -> fst (req_hint r p) * 1000000 <= t).
+Proof.
+  intros H.
+  pose proof (H (PRange (-1000000000) 0) {| ps_path := []; ps_range := 0; ps_offset := 0 |} (-301000000000)) as H1.
+  assert (P : req_from_ns (PRange (-1000000000) 0) {| ps_path := []; ps_range := 0; ps_offset := 0 |} <= -301000000000
+              <= req_to_ns (PRange (-1000000000) 0) {| ps_path := []; ps_range := 0; ps_offset := 0 |})
+    by (vm_compute; split; discriminate).
+  specialize (H1 P). vm_compute in H1. apply H1. reflexivity.
+Qed.
+Print Assumptions prom_range_start_before_1970_refuted.
+Theorem prom_range_subsecond_end_is_cut :
+  let r := PRange 0 15500000000 in let p := {| ps_path := []; ps_range := 0; ps_offset := 0 |} in
+  snd (req_hint r p) * 1000000 < 15500000000 /\ req_to_ns r p = 15000000000.
+Proof. exact range_subsecond_end_is_cut. Qed.
+Print Assumptions prom_range_subsecond_end_is_cut.
+
+Example prom_request_window_hyp :
+  let r := PRange 1704888007250000000 1704888603000000000 in
+  let p := {| ps_path := [{| sq_offset := 10000; sq_range := 1800000 |}]; ps_range := 60000; ps_offset := 86400000 |} in
+  req_ok r /\ req_hint r p = (1704799730000, 1704802205000)
+  /\ req_from_ns r p = 1704799737250000000 /\ req_to_ns r p = 1704802193000000000.
+Proof. exact request_window_example. Qed.
+Example prom_request_rollup_hyp :
+  use_raw_data (req_hints (PRange 1704888007250000000 1704888603000000000) {| ps_path := []; ps_range := 0; ps_offset := 0 |} 15000 "") = false.
+Proof. exact request_rollup_reachable. Qed.
